@@ -3,7 +3,7 @@
    code of reshape.go, flatten.go, squeeze.go, unsqueeze.go, shape.go as repaired), S = the
    ONNX text as written in Check/CheckC07.v (reshape_spec ... shape_spec). *)
 From Coq Require Import List ZArith Bool String.
-From V Require Import DType Tensor Case OpCheck ShapeOps CheckC07 ShapeOpsProofs C07Payload C07Numel C07Numel2 C07Numel3 C07WellFormed C07FlattenAxis.
+From V Require Import DType Tensor Case OpCheck ShapeOps CheckC07 ShapeOpsProofs C07Payload C07Numel C07Numel2 C07Numel3 C07WellFormed C07FlattenAxis C07ReshapeRefusals.
 Import ListNotations.
 Open Scope Z_scope.
 
@@ -96,6 +96,14 @@ Theorem C07_flatten_negative_axis axis t :
   let r := Z.of_nat (List.length (sh t)) in
   - r <= axis < 0 -> flatten_spec axis t = flatten_spec (axis + r) t.
 Proof. exact (flatten_negative_axis axis t). Qed.
+
+(* "a single -1 is inferred": S demands an error for a request with an extent below -1 or with
+   more than one -1, whatever the input *)
+Theorem C07_reshape_refuses_bad_request t shp n :
+  sh shp = [n] ->
+  (exists d, In d (pl shp) /\ d < -1) \/ (2 <= List.length (filter (fun d => (d =? -1)%Z) (pl shp)))%nat ->
+  reshape_spec t shp = SMustErr.
+Proof. exact (reshape_refuses_bad_request t shp n). Qed.
 
 (* the known-finding class is real: the model (and the code) panic on it *)
 Example C07_shape_rank0_refuted :
